@@ -1,4 +1,5 @@
 """SMT-LIB emission and solver portfolio (z3 4.8.12, z3-new 5.1, cvc5 1.0) for engine B queries."""
+import math
 import os
 import re
 import signal
@@ -11,8 +12,9 @@ from fractions import Fraction
 import z3
 
 SOLVERS = {
-    'z3': ['z3', '-smt2'],
-    'z3-new': ['z3-new', '-smt2'],
+    # pp.decimal: algebraic (irrational) model values are printed as decimal approximations "1.4142...?" instead of (root-obj ...)
+    'z3': ['z3', '-smt2', 'pp.decimal=true', 'pp.decimal_precision=30'],
+    'z3-new': ['z3-new', '-smt2', 'pp.decimal=true', 'pp.decimal_precision=30'],
     'cvc5': ['cvc5', '--lang=smt2', '--produce-models'],
 }
 
@@ -40,6 +42,15 @@ def lemma_instances(libm):
                         z3.Implies(x > 1, r > 0), z3.Implies(z3.And(x > 0, x < 1), r < 0)]
             elif name in ('sin', 'cos'):
                 out += [r <= 1, r >= -1]
+                # sign on [-pi, 2 pi] (rational enclosures of pi: intervals shrunk inwards, so every instance is a true fact)
+                plo, phi = z3.RealVal('314159265358979/100000000000000'), z3.RealVal('31415926535898/10000000000000')
+                if name == 'sin':
+                    out += [z3.Implies(z3.And(x >= 0, x <= plo), r >= 0), z3.Implies(z3.And(x >= phi, x <= 2 * plo), r <= 0),
+                            z3.Implies(z3.And(x >= -plo, x <= 0), r <= 0), z3.Implies(z3.And(x > 0, x < plo), r > 0),
+                            z3.Implies(z3.And(x > phi, x < 2 * plo), r < 0), z3.Implies(x >= 0, r <= x), z3.Implies(x <= 0, r >= x)]
+                else:
+                    out += [z3.Implies(z3.And(x >= -plo / 2, x <= plo / 2), r >= 0), z3.Implies(z3.And(x >= phi / 2, x <= 3 * plo / 2), r <= 0),
+                            z3.Implies(z3.And(x >= 3 * phi / 2, x <= 2 * plo), r >= 0), z3.Implies(x == 0, r == one), r >= one - x * x / 2]
             elif name == 'cosh':
                 out += [r >= 1]
             elif name in ('tanh',):
@@ -250,6 +261,8 @@ def portfolio(smt_text, solvers=('z3', 'z3-new', 'cvc5'), timeout=60, workdir=No
         for p in procs.values():
             if p.poll() is None:
                 _kill(p)
+        if not keep and os.environ.get('VERIF_KEEP_SAT') and result['status'] == 'sat':
+            keep = path + '.sat_%s.smt2' % result['solver']
         if keep:
             os.replace(path, keep)
         else:
@@ -495,3 +508,86 @@ def _model_bits(kind, v, ev):
         return None
     except Exception:
         return None
+
+
+# ---------------------------------------------------------------------------
+# counterexample refinement for uninterpreted libm (real mode)
+_PYLIBM = {'sin': math.sin, 'cos': math.cos, 'tan': math.tan, 'exp': math.exp, 'log': math.log, 'atan': math.atan, 'asin': math.asin, 'acos': math.acos,
+           'sinh': math.sinh, 'cosh': math.cosh, 'tanh': math.tanh, 'expm1': math.expm1, 'log1p': math.log1p, 'cbrt': lambda x: math.copysign(abs(x) ** (1.0 / 3), x),
+           'log2': math.log2, 'log10': math.log10, 'exp2': lambda x: 2.0 ** x, 'asinh': math.asinh, 'pow': math.pow, 'atan2': math.atan2, 'hypot': math.hypot}
+
+
+def _ev_float(m, e):
+    v = m.eval(e, model_completion=True)
+    if z3.is_rational_value(v):
+        return float(Fraction(v.numerator_as_long(), v.denominator_as_long()))
+    if z3.is_algebraic_value(v):
+        return float(Fraction(v.approx(25).numerator_as_long(), v.approx(25).denominator_as_long()))
+    raise ValueError('not a number')
+
+
+def refine_libm(q, replay, timeout_ms=20000, rounds=3):
+    """The libm functions are uninterpreted in real mode, so a model may use function values no real libm returns and then does not replay.
+    Refinement: take the model's ARGUMENT of every libm application, evaluate the true function there (python math = the C libm), pin
+    argument and result to those (true) points and solve again; the pinned facts are valid facts about the real functions, so a model of
+    the refined query is a genuine candidate.  `replay(vals) -> bool` runs the native binary.  Returns input values that replay, or None."""
+    negs = q.negs
+    goal = negs[0] if len(negs) == 1 else z3.Or(*negs)
+    cons = list(q.constraints) + lemma_instances(q.libm)
+    pins = []
+    for it in range(rounds + 1):
+        s = z3.Solver()
+        s.set('timeout', timeout_ms)
+        for c in cons:
+            s.add(c)
+        s.add(goal)
+        for c in pins:
+            s.add(c)
+        try:
+            rr = s.check()
+            if os.environ.get('VERIF_REFINE_DEBUG'):
+                import sys
+                sys.stderr.write('[refine] round %d pins=%d -> %s\n' % (it, len(pins), rr))
+            if rr != z3.sat:
+                return None
+            m = s.model()
+            vals = []
+            for kind, label, v in q.inputs:
+                if not isinstance(v, z3.ExprRef):
+                    vals.append(_bits_of_concrete(kind, v))
+                else:
+                    vals.append(_model_bits(kind, v, m.eval(v, model_completion=True)))
+            if any(x is None for x in vals):
+                return None
+            if replay(vals):
+                return vals
+            if it == rounds:
+                return None
+            pins = []
+            seen = set()
+            for name, args, r in q.libm:
+                f = _PYLIBM.get(name)
+                if f is None:
+                    return None
+                key = (name,) + tuple(a.get_id() for a in args)
+                if key in seen:
+                    continue
+                seen.add(key)
+                av = [_ev_float(m, a) for a in args]
+                try:
+                    rv = f(*av)
+                except (ValueError, OverflowError):
+                    return None
+                if rv != rv or rv in (float('inf'), float('-inf')):
+                    return None
+                if os.environ.get('VERIF_REFINE_DEBUG'):
+                    import sys
+                    sys.stderr.write('[refine]   %s(%s) = %r (model had %r)\n' % (name, av, rv, _ev_float(m, r)))
+                for a, x in zip(args, av):
+                    fx = Fraction(x)
+                    pins.append(a == z3.RealVal(str(fx.numerator) + '/' + str(fx.denominator)))
+                fr = Fraction(rv)
+                pins.append(r == z3.RealVal(str(fr.numerator) + '/' + str(fr.denominator)))
+        except (z3.Z3Exception, ValueError, OverflowError):
+            return None
+    return None
